@@ -715,7 +715,12 @@ func admRun(args []string) error {
 		return err
 	}
 	events += n
-	fmt.Printf("{\"traces\":%d,\"events\":%d}\n", traces+2, events)
+	n, err = l1.RunMCPPublish(f, sd, "mcppublish")
+	if err != nil {
+		return err
+	}
+	events += n
+	fmt.Printf("{\"traces\":%d,\"events\":%d}\n", traces+3, events)
 	return nil
 }
 
